@@ -36,7 +36,16 @@ fn gen_forced_gram(rng: &mut Rng) -> Gram {
 pub fn case(rng: &mut Rng, out: &mut Out) {
     let g = if rng.chance(2, 3) { gen_forced_gram(rng) } else { gen_gram(rng) };
     let lark = g.to_lark();
-    let (ws, eos) = if rng.chance(1, 4) { single_byte_vocab() } else { gen_engine_vocab(rng, 40) };
+    // half of the multi-byte vocabularies are cut out of strings of the grammar: tokens then overlap
+    // (a proper suffix of one token starts another), which is what token healing has to undo
+    let (ws, eos) = if rng.chance(1, 4) {
+        single_byte_vocab()
+    } else {
+        match if rng.chance(1, 2) { derived_vocab(rng, &lark, 40, false) } else { None } {
+            Some(v) => v,
+            None => gen_engine_vocab(rng, 40),
+        }
+    };
     let env_c = make_env(&ws, eos, true); // canonical: forcing on
     let (wb, eosb) = single_byte_vocab();
     let env_b = make_env(&wb, eosb, false); // byte-level reference engine
@@ -96,6 +105,37 @@ pub fn case(rng: &mut Rng, out: &mut Out) {
             let dec: Vec<u8> = fft.iter().flat_map(|&t| ws[t as usize].clone()).collect();
             if !ff.starts_with(&dec) {
                 viol.push(format!("ff tokens decode to {:?}, not a prefix of the forced bytes {:?}", String::from_utf8_lossy(&dec), String::from_utf8_lossy(&ff)));
+            }
+            // after the ff tokens the rest of the forced text is still pending, nothing lost or invented,
+            // and every token the next mask offers agrees with that pending text
+            if !fft.is_empty() {
+                let mut c = m.deep_clone();
+                if fft.iter().all(|&t| c.consume_token(t).is_ok()) && !c.is_stopped() {
+                    let pending = c.compute_ff_bytes();
+                    let mut all = dec.clone();
+                    all.extend_from_slice(&pending);
+                    if ff.len() <= 5000 && !all.starts_with(&ff) && !ff.starts_with(&all) {
+                        viol.push(format!(
+                            "ff tokens {:?} plus the text still forced afterwards {:?} is not the forced text {:?}",
+                            String::from_utf8_lossy(&dec), String::from_utf8_lossy(&pending), String::from_utf8_lossy(&ff)
+                        ));
+                    }
+                    if let Ok(mk) = c.compute_mask() {
+                        let c_fft = c.compute_ff_tokens();
+                        if c_fft.is_empty() && !pending.is_empty() {
+                            for t in mask_list(&mk) {
+                                let tb = &ws[t as usize];
+                                if t != eos && !(tb.starts_with(&pending) || pending.starts_with(tb)) {
+                                    viol.push(format!(
+                                        "token {:?} is offered although {:?} is still forced, after {:?}",
+                                        String::from_utf8_lossy(tb), String::from_utf8_lossy(&pending), String::from_utf8_lossy(&hist_bytes)
+                                    ));
+                                    break;
+                                }
+                            }
+                        }
+                    }
+                }
             }
             // mask: singleton on the first ff token while forcing
             let (rm, mask) = run_op(&mut m, &Op::Mask);
@@ -170,10 +210,58 @@ pub fn case(rng: &mut Rng, out: &mut Out) {
     out.case(input, tagged("session", results), forced_total > 0);
 }
 
+/// process_prompt: returned prompt plus pending forced text = original prompt plus forced bytes
+pub fn prompt_case(rng: &mut Rng, out: &mut Out) {
+    use llguidance::api::TopLevelGrammar;
+    use llguidance::toktrie::InferenceCapabilities;
+    use llguidance::ParserFactory;
+    let g = if rng.chance(2, 3) { gen_forced_gram(rng) } else { gen_gram(rng) };
+    let lark = g.to_lark();
+    let Some((ws, eos)) = derived_vocab(rng, &lark, 40, false) else { return };
+    let env = make_env(&ws, eos, true);
+    let Ok(mut m0) = new_matcher(&env, &lark, &[]) else { return };
+    let forced = m0.compute_ff_bytes();
+    if forced.len() > 2000 || m0.is_error() {
+        return;
+    }
+    // a prompt: text over the grammar's alphabet, tokenised canonically
+    let text: Vec<u8> = (0..rng.below(8)).map(|_| *rng.pick(b"abcdex01 ,:\"")).collect();
+    let prompt = env.tokenize_bytes(&text);
+    let Ok(mut f) = ParserFactory::new(&env, InferenceCapabilities::default(), &[]) else { return };
+    f.quiet();
+    let Ok(mut p) = f.create_parser(TopLevelGrammar::from_lark(lark.clone())) else { return };
+    let r = catch_unwind(AssertUnwindSafe(|| {
+        let new_prompt = p.process_prompt(prompt.clone());
+        let pending = p.force_bytes();
+        (new_prompt, pending)
+    }));
+    let Ok((new_prompt, pending)) = r else {
+        out.violation("process_prompt panicked", format!("prompt {:?}\n{}", String::from_utf8_lossy(&text), lark));
+        return;
+    };
+    let mut after: Vec<u8> = new_prompt.iter().flat_map(|&t| ws[t as usize].clone()).collect();
+    after.extend_from_slice(&pending);
+    let mut before = text.clone();
+    before.extend_from_slice(&forced);
+    if after != before {
+        out.violation(
+            &format!(
+                "process_prompt lost or invented text: prompt {:?} + forced {:?} became prompt {:?} + pending {:?}",
+                String::from_utf8_lossy(&text), String::from_utf8_lossy(&forced),
+                String::from_utf8_lossy(&new_prompt.iter().flat_map(|&t| ws[t as usize].clone()).collect::<Vec<u8>>()), String::from_utf8_lossy(&pending)
+            ),
+            format!("vocab {:?}\n{}", ws.iter().skip(256).map(|w| String::from_utf8_lossy(w).to_string()).collect::<Vec<_>>(), lark),
+        );
+    }
+    out.count("prompt_cases", 1);
+}
+
 pub fn run(rng: &mut Rng, out: &mut Out, tier: &str) {
     let n = if tier == "thorough" { 8000 } else { 800 };
     for i in 0..n {
         let mut r = rng.fork(i as u64);
         case(&mut r, out);
+        let mut r = rng.fork(0x1300_0000 + i as u64);
+        prompt_case(&mut r, out);
     }
 }
